@@ -212,3 +212,17 @@ PROPS['C01'] = {
     'explanation': 'Deductive per-token contracts of the real parser; the round trip itself is a composition outside this technique.',
     'not_decided': ['parse(write(t)) = t and byte-identical rewrite for unbounded trees', 'writer emission order (Node.Newick)', 'lexer classification isIdent as a full equivalence'],
 }
+
+INVNOTE = 'representation invariant INV = parallel adjacency arrays, live non-self entries, every branch joins its node and the neighbour in the same slot, simple graph, unshared backing arrays (global symmetric-adjacency quantifier I4 is proved only locally, per touched slot); acyclicity/connectivity follow from the exact adjacency change by graph lemmas L1-L9 (A-GRAPH, not machine-checked)'
+
+PROPS['C17'] = {
+    'level': 'proof', 'claimed': True,
+    'claim': 'unbounded proof on the real nni.Apply, for every binary neighbourhood, slot order and root position: the sub-trees n1_2 and X (n2_2, or n2_1 when crossed) exchange places in the same neighbour slots of n1 and n2, every other slot is untouched, the central branch is reversed exactly when the root lies beyond n1_2, the representation invariant and the orientation invariant (at most one incoming branch per node, none at the root) are re-established; applying an already applied NNI is a no-op. Undo is proved to be the mirror transformer (n1_2 and X return to the same slots with their own branch objects, the central branch is reversed back exactly when it was reversed), and Apply is proved to establish exactly the precondition Undo needs, so Undo after Apply restores every slot and orientation. newNNI picks the two other neighbours on each side (index arithmetic mod 3); Rearrange builds moves only on branches whose two ends have three neighbours and calls the callback at most twice per such branch and never otherwise',
+    'level_note': INVNOTE + '; precondition: the six nodes are distinct, n1/n2 of degree 3, linked both ways by shared branch objects, the central branch oriented n1->n2 (what newNNI is given by Rearrange)',
+    'packages': ['./tree', './hashmap'],
+    'functions': ['(*tree.nni).Apply', '(*tree.nni).Undo', 'tree.newNNI', '(*tree.Node).NodeIndex', '(*tree.Node).IsConnected',
+                  ('(*tree.NNIRearranger).Rearrange', {'match': [r'^callsite', r'^step', r'^nil', r'^bounds']})],
+    'trusted_base': TB_COMMON,
+    'assumptions': A_COMMON,
+    'not_decided': ['pairwise distinctness of all proposed neighbours of a tree (whole-tree fact, L6)', 'Undo o Apply = identity as a single machine-checked statement (it is the composition of the two proved transformers; Apply establishes Undo\'s precondition)', 'adjacency of the two ends of every branch returned by Edges (symmetric adjacency) is an unestablished precondition of newNNI at its call site in Rearrange'],
+}
